@@ -74,8 +74,8 @@ func c09BuildSplit(t *rapid.T) (c09SplitProg, bool) {
 	}
 	// two libraries when there is enough to split: the second one holds a call-closed prefix and is imported by the first
 	inSecond := map[string]bool{}
-	two := len(order) >= 2 && gen.Uniform(0, 1).Draw(t, "two-libraries") == 1
-	if two {
+	two := gen.Uniform(0, 1).Draw(t, "two-libraries") == 1
+	if two && len(order) >= 2 {
 		k := gen.Uniform(1, len(order)-1).Draw(t, "second-size")
 		for _, n := range order[:k] {
 			inSecond[n] = true // earlier definitions: they can only call each other
